@@ -35,6 +35,8 @@ mut("C01", "MC_Msg", "forged-source", r"ELSE MapSet(Audience(S, c, t), LAMBDA m 
 mut("C02", "MC_Reg", "teardown-ignores-authed", r"S1 == IF k.authed /\ k.nick # <<>> /\ k.nick[1] \in DOMAIN S.users",
     r"S1 == IF k.nick # <<>> /\ k.nick[1] \in DOMAIN S.users")
 mut("C02", "MC_Reg", "no-recheck-at-insert", "    ELSE IF n \\in DOMAIN S.users\n    THEN (* the nickname was taken", "    ELSE IF FALSE\n    THEN (* the nickname was taken")
+mut("C02", "MC_Self", "mode-changes-foreign-user", "HModeUser(S, c, target, groups) ==\n    LET n == NickOf(S, c)", "HModeUser(S, c, target, groups) ==\n    LET n == IF target \\in DOMAIN S.users THEN target ELSE NickOf(S, c)")
+mut("C02", "MC_Self", "away-marks-somebody-else", "HAway(S, c, text) ==\n    LET n == NickOf(S, c) IN", "HAway(S, c, text) ==\n    LET n == CHOOSE m \\in DOMAIN S.users : m # NickOf(S, c) IN")
 # ---- C03
 mut("C03", "MC_Gate", "any-password", r"good == reqpw = <<>> \/ (k.pass # <<>> /\ k.pass[1] = reqpw[1])", r"good == reqpw = <<>> \/ k.pass # <<>>")
 mut("C03", "MC_Gate", "user-password-ignored", r"reqpw == IF ui # 0 /\ ucfg.pass # <<>> THEN ucfg.pass ELSE S.cfg.password", r"reqpw == S.cfg.password")
